@@ -72,6 +72,7 @@ type Atom struct {
 	Type    string // xsd local name
 	Other   Path
 }
+
 // Rego is an embedded-Rego constraint (no reference semantics: used for equivalence checks only).
 type Rego struct {
 	Code    string
